@@ -78,23 +78,23 @@ fn evaluate_operator(
     }
     let result = match *op {
         ir::IntrinsicOp::PrefixIncrement => match arg_values[0] {
-            ir::Constant::Int32(input) => ir::Constant::Int32(input + 1),
-            ir::Constant::UInt32(input) => ir::Constant::UInt32(input + 1),
+            ir::Constant::Int32(input) => ir::Constant::Int32(input.wrapping_add(1)),
+            ir::Constant::UInt32(input) => ir::Constant::UInt32(input.wrapping_add(1)),
             _ => return Err(()),
         },
         ir::IntrinsicOp::PrefixDecrement => match arg_values[0] {
-            ir::Constant::Int32(input) => ir::Constant::Int32(input - 1),
-            ir::Constant::UInt32(input) => ir::Constant::UInt32(input - 1),
+            ir::Constant::Int32(input) => ir::Constant::Int32(input.wrapping_sub(1)),
+            ir::Constant::UInt32(input) => ir::Constant::UInt32(input.wrapping_sub(1)),
             _ => return Err(()),
         },
         ir::IntrinsicOp::PostfixIncrement => match arg_values[0] {
-            ir::Constant::Int32(input) => ir::Constant::Int32(input + 1),
-            ir::Constant::UInt32(input) => ir::Constant::UInt32(input + 1),
+            ir::Constant::Int32(input) => ir::Constant::Int32(input.wrapping_add(1)),
+            ir::Constant::UInt32(input) => ir::Constant::UInt32(input.wrapping_add(1)),
             _ => return Err(()),
         },
         ir::IntrinsicOp::PostfixDecrement => match arg_values[0] {
-            ir::Constant::Int32(input) => ir::Constant::Int32(input - 1),
-            ir::Constant::UInt32(input) => ir::Constant::UInt32(input - 1),
+            ir::Constant::Int32(input) => ir::Constant::Int32(input.wrapping_sub(1)),
+            ir::Constant::UInt32(input) => ir::Constant::UInt32(input.wrapping_sub(1)),
             _ => return Err(()),
         },
         ir::IntrinsicOp::Plus => match arg_values[0] {
@@ -104,8 +104,10 @@ fn evaluate_operator(
             ref value => value.clone(),
         },
         ir::IntrinsicOp::Minus => match arg_values[0] {
-            ir::Constant::Int32(input) => ir::Constant::Int32(-input),
-            ir::Constant::IntLiteral(input) => ir::Constant::IntLiteral(-input),
+            ir::Constant::Int32(input) => ir::Constant::Int32(input.wrapping_neg()),
+            ir::Constant::IntLiteral(input) => {
+                ir::Constant::IntLiteral(input.checked_neg().ok_or(())?)
+            }
             ir::Constant::Float16(input) => ir::Constant::Float16(-input),
             ir::Constant::FloatLiteral(input) => ir::Constant::FloatLiteral(-input),
             ir::Constant::Float32(input) => ir::Constant::Float32(-input),
@@ -126,31 +128,37 @@ fn evaluate_operator(
         },
         ir::IntrinsicOp::Add => match (&arg_values[0], &arg_values[1]) {
             (ir::Constant::IntLiteral(lhs), ir::Constant::IntLiteral(rhs)) => {
-                ir::Constant::IntLiteral(lhs + rhs)
+                ir::Constant::IntLiteral(lhs.checked_add(*rhs).ok_or(())?)
             }
-            (ir::Constant::Int32(lhs), ir::Constant::Int32(rhs)) => ir::Constant::Int32(lhs + rhs),
+            (ir::Constant::Int32(lhs), ir::Constant::Int32(rhs)) => {
+                ir::Constant::Int32(lhs.wrapping_add(*rhs))
+            }
             (ir::Constant::UInt32(lhs), ir::Constant::UInt32(rhs)) => {
-                ir::Constant::UInt32(lhs + rhs)
+                ir::Constant::UInt32(lhs.wrapping_add(*rhs))
             }
             _ => return Err(()),
         },
         ir::IntrinsicOp::Subtract => match (&arg_values[0], &arg_values[1]) {
             (ir::Constant::IntLiteral(lhs), ir::Constant::IntLiteral(rhs)) => {
-                ir::Constant::IntLiteral(lhs - rhs)
+                ir::Constant::IntLiteral(lhs.checked_sub(*rhs).ok_or(())?)
             }
-            (ir::Constant::Int32(lhs), ir::Constant::Int32(rhs)) => ir::Constant::Int32(lhs - rhs),
+            (ir::Constant::Int32(lhs), ir::Constant::Int32(rhs)) => {
+                ir::Constant::Int32(lhs.wrapping_sub(*rhs))
+            }
             (ir::Constant::UInt32(lhs), ir::Constant::UInt32(rhs)) => {
-                ir::Constant::UInt32(lhs - rhs)
+                ir::Constant::UInt32(lhs.wrapping_sub(*rhs))
             }
             _ => return Err(()),
         },
         ir::IntrinsicOp::Multiply => match (&arg_values[0], &arg_values[1]) {
             (ir::Constant::IntLiteral(lhs), ir::Constant::IntLiteral(rhs)) => {
-                ir::Constant::IntLiteral(lhs * rhs)
+                ir::Constant::IntLiteral(lhs.checked_mul(*rhs).ok_or(())?)
             }
-            (ir::Constant::Int32(lhs), ir::Constant::Int32(rhs)) => ir::Constant::Int32(lhs * rhs),
+            (ir::Constant::Int32(lhs), ir::Constant::Int32(rhs)) => {
+                ir::Constant::Int32(lhs.wrapping_mul(*rhs))
+            }
             (ir::Constant::UInt32(lhs), ir::Constant::UInt32(rhs)) => {
-                ir::Constant::UInt32(lhs * rhs)
+                ir::Constant::UInt32(lhs.wrapping_mul(*rhs))
             }
             _ => return Err(()),
         },
@@ -177,16 +185,11 @@ fn evaluate_operator(
         },
         ir::IntrinsicOp::Modulus => match (&arg_values[0], &arg_values[1]) {
             (ir::Constant::IntLiteral(lhs), ir::Constant::IntLiteral(rhs)) => {
-                if *rhs == 0 {
-                    return Err(());
-                }
-                ir::Constant::IntLiteral(lhs % rhs)
+                ir::Constant::IntLiteral(lhs.checked_rem(*rhs).ok_or(())?)
             }
             (ir::Constant::Int32(lhs), ir::Constant::Int32(rhs)) => {
-                if *rhs == 0 {
-                    return Err(());
-                }
-                ir::Constant::Int32(lhs % rhs)
+                // Not a constant for a zero divisor and for INT_MIN % -1 - the same as division
+                ir::Constant::Int32(lhs.checked_rem(*rhs).ok_or(())?)
             }
             (ir::Constant::UInt32(lhs), ir::Constant::UInt32(rhs)) => {
                 if *rhs == 0 {
@@ -198,21 +201,26 @@ fn evaluate_operator(
         },
         ir::IntrinsicOp::LeftShift => match (&arg_values[0], &arg_values[1]) {
             (ir::Constant::IntLiteral(lhs), ir::Constant::IntLiteral(rhs)) => {
-                ir::Constant::IntLiteral(lhs << rhs)
+                ir::Constant::IntLiteral(literal_shift_left(*lhs, *rhs)?)
             }
-            (ir::Constant::Int32(lhs), ir::Constant::Int32(rhs)) => ir::Constant::Int32(lhs << rhs),
+            (ir::Constant::Int32(lhs), ir::Constant::Int32(rhs)) => {
+                // Shifts use the low 5 bits of the shift count
+                ir::Constant::Int32(lhs.wrapping_shl(*rhs as u32))
+            }
             (ir::Constant::UInt32(lhs), ir::Constant::UInt32(rhs)) => {
-                ir::Constant::UInt32(lhs << rhs)
+                ir::Constant::UInt32(lhs.wrapping_shl(*rhs))
             }
             _ => return Err(()),
         },
         ir::IntrinsicOp::RightShift => match (&arg_values[0], &arg_values[1]) {
             (ir::Constant::IntLiteral(lhs), ir::Constant::IntLiteral(rhs)) => {
-                ir::Constant::IntLiteral(lhs >> rhs)
+                ir::Constant::IntLiteral(literal_shift_right(*lhs, *rhs)?)
             }
-            (ir::Constant::Int32(lhs), ir::Constant::Int32(rhs)) => ir::Constant::Int32(lhs >> rhs),
+            (ir::Constant::Int32(lhs), ir::Constant::Int32(rhs)) => {
+                ir::Constant::Int32(lhs.wrapping_shr(*rhs as u32))
+            }
             (ir::Constant::UInt32(lhs), ir::Constant::UInt32(rhs)) => {
-                ir::Constant::UInt32(lhs >> rhs)
+                ir::Constant::UInt32(lhs.wrapping_shr(*rhs))
             }
             _ => return Err(()),
         },
@@ -378,6 +386,32 @@ fn evaluate_operator(
     } else {
         result
     })
+}
+
+/// Shift an untyped integer literal left - or fail if the count is negative or the exact result does not fit
+fn literal_shift_left(lhs: i128, rhs: i128) -> Result<i128, ()> {
+    if rhs < 0 {
+        return Err(());
+    }
+    if lhs == 0 {
+        return Ok(0);
+    }
+    let count = u32::try_from(rhs).map_err(|_| ())?;
+    let result = lhs.checked_shl(count).ok_or(())?;
+    if result >> count == lhs {
+        Ok(result)
+    } else {
+        Err(())
+    }
+}
+
+/// Shift an untyped integer literal right - or fail if the count is negative
+fn literal_shift_right(lhs: i128, rhs: i128) -> Result<i128, ()> {
+    if rhs < 0 {
+        return Err(());
+    }
+    // All value bits are gone after 127 places
+    Ok(lhs >> rhs.min(127))
 }
 
 /// Evaluate a cast between a value and a type
